@@ -192,6 +192,7 @@ Section Exec.
   Definition run_subplan_par (site : nat) (chain : list snode) (partitions : nat)
     : outcome (list part) :=
     match chain with
+    | [] => Panic                      (* `&chain[0]` on an empty chain *)
     | SB (BSource s) :: rest => par_sub_rest site rest (source_parts s partitions)
     | _ => Err E_NO_SOURCE
     end.
@@ -214,6 +215,7 @@ Section Exec.
 
   Definition exec_par (term : tag) (chain : list node) (partitions : nat) : outcome (list val) :=
     match chain with
+    | [] => Panic                      (* `&chain[0]` on an empty chain *)
     | NB (BSource s) :: rest =>
         obind (par_main 0 partitions rest (source_parts s partitions)) (collect_parts term)
     | _ => Err E_NO_SOURCE
